@@ -13,7 +13,11 @@ Open Scope nat_scope.
 (* ---------- keys ---------- *)
 
 Lemma ns_eqb_eq a b : ns_eqb a b = true <-> a = b.
-Proof. destruct a, b; cbn; split; intros H; try reflexivity; discriminate. Qed.
+Proof.
+  destruct a as [| | | |x], b as [| | | |y]; cbn; split; intros H; try reflexivity; try discriminate.
+  - apply String.eqb_eq in H. subst. reflexivity.
+  - inversion H. apply String.eqb_refl.
+Qed.
 
 Lemma key_eqb_eq (a b : key) : key_eqb a b = true <-> a = b.
 Proof.
